@@ -195,7 +195,8 @@ inductive Err where
   | divZero       -- "Division by zero"
   | badOp         -- "Unknown operator" / no comparison operator / NOT in a compound
   | fuel          -- the model's recursion bound (string length) was exhausted: never happens
-  | panic         -- `Result::unwrap()` on an `Err` value inside `apply_operator`
+  | notNumber     -- "Cannot convert … to number": a non-numeric operand of `- * / %` (an `Err` since fix F-C05g)
+  | panic         -- kept for the pre-F-C05g behaviour (`Result::unwrap()` on that `Err`): no longer produced
 deriving DecidableEq, Repr
 
 abbrev Res (α : Type) := Except Err α
@@ -245,7 +246,7 @@ def applyOp (ops : FloatOps F) (l : Val F) (op : Char) (r : Val F) : Res (Val F)
       match l, r with
       | .str s1, .str s2 => .ok (.str (s1 ++ s2))
       | _, _ => .error .concat
-    else .error .panic        -- `left_num.unwrap()` / `right_num.unwrap()` on an Err
+    else .error .notNumber    -- `left_num?` / `right_num?`: the conversion error is returned (it was unwrapped before F-C05g)
 
 /-- the string-literal test of `evaluate_expression` -/
 def quotedTail (q : Char) : Str → Bool
